@@ -77,7 +77,8 @@ class ShardContext:
             self.samples.append(obj)
 
     def fail(self, kind, detail=None, case=None, **kw):
-        f = {"kind": kind, "detail": detail, "case": case if case is not None else self.case, "known": None}
+        f = {"kind": kind, "detail": detail, "case": case if case is not None else self.case, "known": None,
+             "shard": self.spec.get("shard"), "case_index": self.case_index}
         f.update(kw)
         self._failed_this_case = True
         if hasattr(self.mod, "classify"):
